@@ -100,7 +100,7 @@ struct CollPath {
 /// straddles 2^64 (`key + KEY_OFFSET`), as an id space wider than 64 bits would.
 ///
 /// `pad` makes the token as long as a token may be: the envelope
-/// `{"v":"v1","page_start":{"last":<20 digits>,"pad":"…"}}` is exactly 384 bytes
+/// `{"v":"v1","page_start":{"last":<20 digits>,"pad":"…"}}` is 382 to 384 bytes
 /// of JSON, i.e. exactly 512 (= the maximum) base64 characters - every token these
 /// endpoints issue sits on the bound and must still be accepted back, beside a
 /// limit and beside other parameters.
@@ -112,7 +112,9 @@ struct SelKey {
 const KEY_OFFSET: u128 = (1u128 << 64) - 20;
 const PAD_LEN: usize = 384 - 31 - 20 - 8 - 3;
 fn sel_of(key: u64) -> SelKey {
-    SelKey { last: key as u128 + KEY_OFFSET, pad: "p".repeat(PAD_LEN) }
+    // the envelope is 384, 383 or 382 bytes long (by the key): a token of exactly 512 characters
+    // ending in nothing, `=` or `==` - on the bound with and without base64 padding
+    SelKey { last: key as u128 + KEY_OFFSET, pad: "p".repeat(PAD_LEN - (key % 3) as usize) }
 }
 fn key_of(sel: &SelKey) -> u64 {
     (sel.last - KEY_OFFSET) as u64
